@@ -142,6 +142,7 @@ class Store:
     def __init__(self, base, off, size, val, cond, inst):
         self.base, self.off, self.size, self.val, self.cond, self.inst = base, off, size, val, cond, inst
         self.block = inst.get("_bb") if isinstance(inst, dict) else None
+        self.seq = None
 
 
 PURE_INTRINSICS = {
@@ -323,8 +324,10 @@ def where(inst):
 class Sym:
     """Gated-SSA term construction for one loop-free function."""
 
-    def __init__(self, fn, opaque_prefixes=("_ZN5verif4sink", "_ZN5verif7io_", "verif_"), prefix_only=False, epochs=False, cut_loops=False):
+    def __init__(self, fn, opaque_prefixes=("_ZN5verif4sink", "_ZN5verif7io_", "verif_"), prefix_only=False, epochs=False, cut_loops=False, forward_args=False):
         self.fn = fn if isinstance(fn, Func) else Func(fn)
+        self.forward_args = forward_args
+        self.argmem = {}
         self.prefix_only = prefix_only
         self.cut_loops = cut_loops
         self.cut = set()        # back edges that were cut
@@ -333,6 +336,8 @@ class Sym:
         self.call_block = {}
         self.epochs = epochs
         self.branches = []      # (block condition, branch condition term, inst)
+        self.seq = 0
+        self.arg_loads = []     # (seq, base, off, size, cond)
         self.atom_bits = {('arg', a["i"]): type_bits(a["ty"]) for a in self.fn.args if type_bits(a["ty"])}
         self.val = {}
         self.calls = []
@@ -795,6 +800,13 @@ class Sym:
                 # partial overlap: give up on this value only
                 return ('ldlocal', base[1], off, size, tuple(sorted(((o, s) for o, (s, _) in m.items()), key=repr)))
             return ('lddyn', base[1], off, tuple(sorted(((o, v[1]) for o, v in m.items()), key=repr)))
+        self.seq += 1
+        self.arg_loads.append((self.seq, base, off, size, bc))
+        if self.forward_args and (base, off, size) in self.argmem:
+            sc, sv = self.argmem[(base, off, size)]
+            if sc == TRUE or sc in common_lits(bc) or all(l in common_lits(bc) for l in common_lits(sc)):
+                return sv
+            return ('sel', sc, sv, ('ld', base, off, size, ty, self._ep(base)))
         if ty.startswith("<"):
             n = int(ty[1:].split(" x ")[0])
             es = size // n
@@ -846,7 +858,12 @@ class Sym:
             for i in range(n):
                 self.stores.append(Store(base, self._addoff(off, i * es), es, v[1 + i], bc, inst))
             return
-        self.stores.append(Store(base, off, size, v, bc, inst))
+        st = Store(base, off, size, v, bc, inst)
+        self.seq += 1
+        st.seq = self.seq
+        self.stores.append(st)
+        if self.forward_args and base[0] == 'arg' and isinstance(off, int):
+            self.argmem[(base, off, size)] = (bc, v)
 
     # ---- calls ----
     def _call(self, inst, bc):
@@ -878,6 +895,8 @@ class Sym:
         c = Call(len(self.calls), name, inst.get("dcallee"), args, inst, bc)
         self.calls.append(c)
         c.block = inst["_bb"]
+        self.seq += 1
+        c.seq = self.seq
         # arguments that are local pointers: remember what the callee can read there, and that it may write them
         c.snap = {}
         for ai, a in enumerate(args):
@@ -911,6 +930,16 @@ class Sym:
 
     def _memcpy(self, inst, args, bc):
         dst, src, n = args[0], args[1], args[2]
+        if src[0] in ('ld', 'wr', 'call'):
+            src = ('ptr', ('mem', src), 0)
+        if dst[0] in ('ld', 'wr', 'call'):
+            dst = ('ptr', ('mem', dst), 0)
+        if dst[0] == 'ptr' and src[0] == 'ptr' and n[0] != 'ci' and dst[1][0] != 'alloca':
+            st = Store(dst[1], dst[2], n, ('blk', src), bc, inst)
+            self.seq += 1
+            st.seq = self.seq
+            self.stores.append(st)
+            return
         if n[0] != 'ci' or dst[0] != 'ptr' or src[0] != 'ptr':
             self.unknown.append(inst)
             return
@@ -926,7 +955,10 @@ class Sym:
                 dm[('memcpy', dst[2], n)] = (n, ('ldblk', src[1], src[2], n))
             return
         if dst[1][0] != 'alloca':
-            self.stores.append(Store(dst[1], dst[2], n, ('blk', src), bc, inst))
+            st = Store(dst[1], dst[2], n, ('blk', src), bc, inst)
+            self.seq += 1
+            st.seq = self.seq
+            self.stores.append(st)
             return
         self.unknown.append(inst)
 
